@@ -1,2 +1,85 @@
-From ZC Require Import Model.Base Model.Register Model.Node.
-Example C08_placeholder : True. Proof. exact I. Qed.
+(* C08 - withdrawn services stay withdrawn: complete goodbyes, no resurrection. Statements only.
+   Model/Register.v unregister_service, Model/OutQueue.v, and the node LTS Model/Node.v (registry + responder + both outgoing queues +
+   tasks), tied to the real instance by label replay (Corr/Node.v).  Vocabulary (Proofs/C08_withdraw.v, C08_queue.v, C08_records.v):
+   server_shared g' s = another service left in g' uses the host of s; withdrawn_records g s = the records async_unregister_service
+   takes out of the queues (PTR, SRV, TXT, and the address / NSEC records when the host is no longer used); calm l = a label that
+   neither registers nor updates a service; InternInv = the interning table has no two entries of one identity, queue groups are dicts,
+   queued ids are in the table; tasks_ok W n / bye_ok W n = every unfinished announcement task / the shutdown message of n carries no
+   record of W with a positive TTL (the node is settled: no announcement of the service is still in flight). *)
+From ZC Require Import Model.Base Model.PyRec Model.Dict Model.Cache Model.Respond Model.Route Model.WireEnc Model.OutQueue
+  Model.Register Model.Node Gen.Const Gen.Extra Gen.DnsPure Spec.AnswerSpec
+  Proofs.C03_reg Proofs.C08_queue Proofs.C08_records Proofs.C08_withdraw.
+
+(* what is said goodbye to: the registry entry goes; three messages 125 ms apart; every record with TTL 0; PTR, SRV, TXT always, address
+   and NSEC records iff no remaining service uses the host; the records taken out of the queues are the same identities *)
+Theorem C08_goodbye_content : forall g s g' task withdrawn,
+  unregister_service g s = (g', task, withdrawn) ->
+  let with_addr := negb (server_shared g' s) in
+  let goodbye := broadcast_records s (Some 0) with_addr in
+  g' = reg_remove g (s_key s) /\
+  (forall t1 t2 t3 t4, bcast_run task [t1; t2; t3; t4] =
+     [[BSend t1 goodbye; BSleep 125]; [BSend t2 goodbye; BSleep 125]; [BSend t3 goodbye; BEnd]; [BEnd]]) /\
+  (RegInv g' -> (with_addr = true <-> forall s', In s' (registered g') -> s_server_key s' <> s_server_key s)) /\
+  (forall r, In r goodbye -> p_ttl r = 0) /\
+  (In (dns_pointer (with_ttl s 0)) goodbye /\ In (dns_service (with_ttl s 0)) goodbye /\ In (dns_text (with_ttl s 0)) goodbye) /\
+  (forall x, In x (address_and_nsec (with_ttl s 0)) -> (In x goodbye <-> with_addr = true)) /\
+  withdrawn = broadcast_records s None with_addr /\
+  goodbye = map (set_ttl 0) withdrawn /\
+  Forall2 (fun gb w => gen_eq w gb = true) goodbye withdrawn.
+Proof. exact goodbye_content. Qed.
+
+(* the queues: once stripped, a withdrawn id is neither an answer nor an additional of anything queued, and stays out as long as
+   nothing that mentions it is added; so the queue never emits it again *)
+Theorem C08_queue_stripped : forall (K : list Z) (q : oq) (ops : list qop),
+  QDict q -> Forall (qop_free_adds K) ops ->
+  forall a k adds, In a (snd (qops_run (strip_queue K q) ops)) -> In (k, adds) a ->
+    ~ In k K /\ forall x, In x adds -> ~ In x K.
+Proof. exact stripped_ids_never_emitted. Qed.
+
+(* THE property, node level: from a settled node, after async_unregister_service nothing the node ever sends again - answers computed
+   from the remaining registry, whatever was waiting in the aggregation or protection queue, later withdrawals, shutdown - carries a
+   withdrawn record with a positive TTL, as long as no service is registered or updated again *)
+Theorem C08_no_resurrection : forall n id now key s n1 outs,
+  RegInv (n_reg n) -> InternInv n ->
+  d_get text_eqb (g_services (n_reg n)) key = Some s ->
+  nstep n (LUnregister id now key) = (n1, outs) ->
+  let W := withdrawn_records (n_reg n) s in
+  lower (s_type s) <> C_SERVICE_TYPE_ENUMERATION_NAME ->
+  tasks_ok W n -> bye_ok W n ->
+  forall ls, Forall calm ls ->
+  forall outs' t d m r,
+    In outs' (nrun n1 ls) -> In (OSend t d m) outs' ->
+    In r (map fst (o_answers m) ++ o_additionals m) -> p_ttl r > 0 ->
+    forall w, In w W -> gen_eq w r = false.
+Proof. exact no_resurrection. Qed.
+
+Theorem C08_withdrawn_records : forall g s w,
+  In w (withdrawn_records g s) <->
+  w = dns_pointer s \/ w = dns_service s \/ w = dns_text s \/
+  (server_shared (reg_remove g (s_key s)) s = false /\ In w (address_and_nsec s)).
+Proof. exact withdrawn_records_spec. Qed.
+
+(* the settled-node hypothesis cannot be dropped: a service unregistered while its own announcements are still in flight is announced
+   again after the goodbye (the recorded finding C07-withdrawal-during-broadcast) *)
+Theorem C08_unsettled_refuted :
+  ~ (forall n id now key s n1 outs,
+       RegInv (n_reg n) -> InternInv n ->
+       d_get text_eqb (g_services (n_reg n)) key = Some s ->
+       nstep n (LUnregister id now key) = (n1, outs) ->
+       lower (s_type s) <> C_SERVICE_TYPE_ENUMERATION_NAME ->
+       forall ls, Forall calm ls ->
+       forall outs' t d m r,
+         In outs' (nrun n1 ls) -> In (OSend t d m) outs' ->
+         In r (map fst (o_answers m) ++ o_additionals m) -> p_ttl r > 0 ->
+         forall w, In w (withdrawn_records (n_reg n) s) -> gen_eq w r = false).
+Proof. exact no_resurrection_refuted. Qed.
+
+(* the history on which the pinned tree (and the first repair) resurrected a withdrawn AAAA record as an additional now lets nothing
+   withdrawn out: two services on one host, s1 with A + AAAA, s2 with the AAAA only; a query queues "A, additional AAAA"; s1 then s2 unregistered *)
+Example C08_additional_history :
+  map (map (resurrects cxb_W)) (nrun cxb_n (LUnregister 4 5020 (s_key cxb_s2) :: cxb_later)) =
+  [[false]; [false; false]; [false; false]; [false; false]; [false]].
+Proof. exact cxb_no_resurrection. Qed.
+
+Print Assumptions C08_goodbye_content. Print Assumptions C08_queue_stripped. Print Assumptions C08_no_resurrection.
+Print Assumptions C08_withdrawn_records. Print Assumptions C08_unsettled_refuted. Print Assumptions C08_additional_history.
